@@ -502,7 +502,19 @@ match self.rng.below(8) {
                     Top::SetBlock { height: self.rng.range(1, 1_000_000), time_nanos: self.rng.range(1, 2_000_000_000) * 1_000_000_000, chain_id: format!("chain-{}", self.rng.below(5)), next: false }
                 }
             }
-            94..=96 => Top::QueryBattery,
+            94..=95 => Top::QueryBattery,
+            96 => {
+                let contracts: Vec<String> = m.st.contracts.keys().cloned().collect();
+                if contracts.is_empty() {
+                    Top::QueryBattery
+                } else {
+                    let addr = self.rng.pick(&contracts).clone();
+                    let key = self.key(m, &addr);
+                    self.tag += 1;
+                    let value = if self.pct(25) { None } else { Some(Binary::from(format!("poke{}", self.tag).into_bytes())) };
+                    Top::Poke { addr, key: Binary::from(key), value }
+                }
+            }
             _ => {
                 let kind = match self.rng.below(4) {
                     0 => CodeKind::Lifted,
